@@ -35,7 +35,21 @@ pub enum Case {
     Matrix { target: Target, kind: Kind, text: Vec<u8>, suffix: String, value: u64 },
 }
 
+/// Known finding KF2 (DESIGN 12): with the crate's `compact` feature, lexical-parse-float 0.8.5
+/// rounds a float literal of 20 or more significant digits that lies at or very near the midpoint
+/// of two adjacent floats to the wrong neighbour (one ulp off; about one random f64 literal in two
+/// million, and exact f32 / f64 midpoints written out in full). The class is excluded (and counted) in the alternative configuration
+/// so that the search goes on; the campaign `compact-long-f64-literals` reports it.
+fn is_kf2(lit: &str, ulps_off: i64, finite: bool) -> bool {
+    let sig = lit.split(['e', 'E']).next().unwrap_or("").bytes().filter(|c| c.is_ascii_digit()).skip_while(|c| *c == b'0').count();
+    crate::engine::ALT_CONFIG && sig >= 20 && finite && ulps_off.abs() == 1
+}
+
 fn check_float(single: bool, lit: &str, halfway: bool, obs: &Obs, key: &Case) -> CheckResult {
+    check_float_opt(single, lit, halfway, true, obs, key)
+}
+
+fn check_float_opt(single: bool, lit: &str, halfway: bool, exclude_known: bool, obs: &Obs, key: &Case) -> CheckResult {
     let tok = Token::DecimalNumericProgramData(lit.as_bytes());
     let digits = lit.bytes().filter(|c| c.is_ascii_digit()).count();
     if single {
@@ -51,6 +65,13 @@ fn check_float(single: bool, lit: &str, halfway: bool, obs: &Obs, key: &Case) ->
         match f32::try_from(tok) {
             Ok(got) => {
                 if got.to_bits() != want.to_bits() {
+                    if is_kf2(lit, got.to_bits() as i64 - want.to_bits() as i64, got.is_finite() && want.is_finite()) {
+                        if exclude_known {
+                            obs.label("excluded: known finding KF2 (compact, >= 20 digits, one ulp)");
+                            return Ok(());
+                        }
+                        fail!("float-misrounded-long-1ulp", "f32::try_from({lit}) = {got:e} ({:#010x}), correctly rounded value is {want:e} ({:#010x})", got.to_bits(), want.to_bits());
+                    }
                     let sig = if got == want { "zero-sign" } else { "float-misrounded" };
                     fail!(sig, "f32::try_from({lit}) = {got:e} ({:#010x}), correctly rounded value is {want:e} ({:#010x})", got.to_bits(), want.to_bits());
                 }
@@ -70,6 +91,13 @@ fn check_float(single: bool, lit: &str, halfway: bool, obs: &Obs, key: &Case) ->
         match f64::try_from(tok) {
             Ok(got) => {
                 if got.to_bits() != want.to_bits() {
+                    if is_kf2(lit, got.to_bits() as i64 - want.to_bits() as i64, got.is_finite() && want.is_finite()) {
+                        if exclude_known {
+                            obs.label("excluded: known finding KF2 (compact, >= 20 digits, one ulp)");
+                            return Ok(());
+                        }
+                        fail!("float-misrounded-long-1ulp", "f64::try_from({lit}) = {got:e} ({:#018x}), correctly rounded value is {want:e} ({:#018x})", got.to_bits(), want.to_bits());
+                    }
                     let sig = if got == want { "zero-sign" } else { "float-misrounded" };
                     fail!(sig, "f64::try_from({lit}) = {got:e} ({:#018x}), correctly rounded value is {want:e} ({:#018x})", got.to_bits(), want.to_bits());
                 }
@@ -571,4 +599,14 @@ fn run(e: &Engine) {
         },
         check,
     );
+    // the known-finding class KF2 is reported only here (alternative configuration only)
+    if crate::engine::ALT_CONFIG {
+        let lits32 = ["0.00000000000000000000010587911525134392149949309093804098412527903150248675956390798091888427734375"];
+        let lits = ["109372556475.755500794", "109286876.920048169799559432", "113577763.83408979329", "1223372066.6119614839718839206", "155.67308178993812799467744528812e7", "106418908903974004098.e-12"];
+        e.fixed("compact-long-literals", lits.iter().map(|l| Case::Float { single: false, lit: l.to_string(), halfway: false }).chain(lits32.iter().map(|l| Case::Float { single: true, lit: l.to_string(), halfway: true })).collect(), |c: &Case, obs: &Obs| match c {
+            Case::Float { single, lit, halfway } => check_float_opt(*single, lit, *halfway, false, obs, c),
+            _ => Ok(()),
+        });
+        e.count_excluded("KF2 (compact, float literal of >= 20 significant digits, one ulp off)", e.label_count("excluded: known finding KF2 (compact, >= 20 digits, one ulp)"));
+    }
 }
